@@ -138,6 +138,12 @@ pub struct SearchOut {
 
 /// Run the real `search::search` once. Err = (panic message, location).
 pub fn do_search(g: &Game, ps: &mut PersistentState, limit: &Limit, overhead_ms: usize) -> Result<SearchOut, (String, String)> {
+    do_search_late(g, ps, limit, overhead_ms, 0)
+}
+
+/// As `do_search`, but the search only begins `late_ms` after its stopwatch was started (the front end starts the
+/// stopwatch when it reads `go`; thread start-up, a busy table lock or a loaded machine come in between).
+pub fn do_search_late(g: &Game, ps: &mut PersistentState, limit: &Limit, overhead_ms: usize, late_ms: u64) -> Result<SearchOut, (String, String)> {
     let mut options = EngineOptions::default();
     options.move_overhead = overhead_ms;
     let (tc, depth) = match limit {
@@ -171,6 +177,9 @@ pub fn do_search(g: &Game, ps: &mut PersistentState, limit: &Limit, overhead_ms:
     }
     let r = guarded(|| {
         let (mut ts, _control) = TimeStrategy::new(g, &tc, &options);
+        if late_ms > 0 {
+            std::thread::sleep(Duration::from_millis(late_ms));
+        }
         let restrictions = SearchRestrictions { depth };
         let mut rec = Recorder { infos: vec![] };
         let best = search::search(g, ps, &mut ts, &restrictions, &options, &mut rec);
@@ -861,6 +870,29 @@ pub fn run_c12(args: &Args, seed: u64, tier: &str, report: &Report) -> String {
             // one shard in four runs its second pass under load
             if let Some((sig, what)) = one(&case, &mut l, shard % 4 == 0 && i % 8 == 0) {
                 report.violation(Violation { monitor: "c12".into(), signature: sig, what, replay_args: vec!["c12".into(), "--case".into(), enc], detail: J::Null });
+            }
+            report.merge_local(&mut l);
+        }
+        // (d) "independent of wall-clock time": the same fixed-depth search with its stopwatch started seconds before
+        // it begins (2.3 s, 5.2 s or 10.4 s by shard) - a depth limit knows nothing about the clock
+        if shard < (if thorough { 16 } else { 6 }) {
+            if let Some((fen, moves, p)) = random_position(&mut rng, &roots, &mut l) {
+                let queens = p.b.iter().flatten().filter(|pc| pc.k == Kind::Q).count();
+                if queens < 6 && !p.legal_moves().is_empty() {
+                    if let Some((g, _)) = build_game(&fen, &moves) {
+                        let late = [2300u64, 5200, 10_400][shard % 3];
+                        let d = 4 + rng.below(3) as u8;
+                        let a = do_search(&g, &mut PersistentState::new(1), &Limit::Depth(d), 0).ok().map(|o| transcript(&o));
+                        let b = do_search_late(&g, &mut PersistentState::new(1), &Limit::Depth(d), 0, late).ok().map(|o| transcript(&o));
+                        l.evaluations += 2;
+                        l.feat("searches_begun_seconds_after_their_stopwatch");
+                        if let (Some(a), Some(b)) = (a, b) {
+                            if a != b {
+                                report.violation(Violation { monitor: "c12".into(), signature: "c12.depends-on-the-clock".into(), what: format!("'{fen}' + {} moves, depth {d}: the search that began {late} ms after its stopwatch was started differs from the one that began at once:\n--- at once\n{a}--- late\n{b}", moves.len()), replay_args: vec![], detail: J::Null });
+                            }
+                        }
+                    }
+                }
             }
             report.merge_local(&mut l);
         }
